@@ -37,6 +37,8 @@ fn main() {
     let code = match args[1].as_str() {
         "C01" => drive(props::c01::C01, mode, file),
         "C02" => drive(props::c02::C02, mode, file),
+        "C06" => drive(props::c06::C06, mode, file),
+        "C07" => drive(props::c06::C07, mode, file),
         "C08" => drive(props::c08::C08, mode, file),
         "C09" => drive(props::c09::C09, mode, file),
         "C10" => drive(props::c02::C10, mode, file),
